@@ -80,7 +80,7 @@ def gen_song(rng, ntracks=None, loops=None, tempo_changes=True, same_tick=True, 
         tick = 0
         sounding = {}
         n_ev = rng.choice([4, 10, 30]) if not big else 400
-        if t == 0 and tempo_changes:
+        if t == 0 and tempo_changes and rng.random() < 0.7:      # otherwise the song starts with the default tempo (120 BPM) and changes it later
             evs.append((0, b"\xff\x51\x03" + struct.pack(">I", rng.choice([500000, 250000, 1000000, 333333, 16777215, 20000]))[1:], ("tempo",)))
         if rng.random() < 0.5:
             name = bytes(rng.choice(b"abcXYZ 09") for _ in range(rng.randrange(0, 9)))
@@ -282,3 +282,40 @@ def tail_cases():
     out.append(smf(0, 96, []))
     out.append(b"MThd\0\0\0\6\0\0\0\1\0\x60")
     return out
+
+
+def gen_cmf(rng):
+    """a well-formed Creative Music File (CTMF): 40-byte header, instrument table, SMF-like event stream.
+    libOPNMIDI detects it and refuses it (OPL music) after having parsed it completely."""
+    nins = rng.choice([0, 1, 3])
+    ins_start = 40
+    mus_start = ins_start + 16 * nins
+    hdr = b"CTMF" + struct.pack("<HHHHH", 0x0101, ins_start, mus_start, rng.choice([96, 120, 192]), rng.choice([48, 96, 120]))
+    hdr += struct.pack("<HHH", 0, 0, 0) + bytes(rng.choice([0, 1]) for _ in range(16)) + struct.pack("<HH", nins, rng.choice([96, 120]))
+    assert len(hdr) == 40
+    body = bytearray()
+    for _ in range(rng.choice([1, 4, 12])):
+        k = rng.choice([48, 60, 72, 127])
+        body += bytes([rng.choice([0, 10, 0x30]), 0x90 | rng.randrange(9), k, rng.choice([1, 64, 127])])
+        body += bytes([rng.choice([1, 0x30]), 0x80 | rng.randrange(9), k, 0])
+    body += bytes([0, 0xFF, 0x2F, 0])
+    return hdr + bytes(rng.randrange(256) for _ in range(16 * nins)) + bytes(body)
+
+
+def gen_rsxx(rng):
+    """a well-formed EA "RSXX" song: first byte = offset of the music (>= 0x5D), the signature `rsxx}u` sixteen bytes before
+    it, then an event stream without a leading delta time.  libOPNMIDI plays it with its own setup (two chips, generic volumes)."""
+    start = rng.choice([0x5D, 0x60, 0x7D])
+    img = bytearray([start]) + bytes(rng.choice([0, 0, rng.randrange(256)]) for _ in range(start - 1))
+    img[start - 0x10:start - 0x10 + 6] = b"rsxx}u"
+    body = bytearray()
+    first = True
+    for _ in range(rng.choice([1, 3, 8])):
+        k = rng.choice([36, 60, 72, 100])
+        if not first:
+            body += bytes([rng.choice([0, 5, 0x30])])
+        first = False
+        body += bytes([0x90 | rng.randrange(16), k, rng.choice([1, 64, 127])])
+        body += bytes([rng.choice([1, 0x30]), 0x80 | rng.randrange(16), k, 0])
+    body += bytes([0, 0xFF, 0x2F, 0])
+    return bytes(img[:start]) + bytes(body)
